@@ -63,6 +63,69 @@ std::vector<OpVal> all_shift_counts(size_t width_bits) {
   return v;
 }
 
+// ---- boundary values far from the usual: 2^k-1, 2^k, 2^k+1 for every k up to the width, and their negatives ----
+template <class D>
+std::vector<D> pow2_values() {
+  std::vector<D> v;
+  if constexpr (std::is_floating_point_v<D>) {
+    std::vector<D> c = {D(0), D(1), std::numeric_limits<D>::denorm_min(), std::numeric_limits<D>::min(), std::numeric_limits<D>::max(), std::numeric_limits<D>::infinity(), D(0.5), D(1.5), D(0.1)};
+    for (int k : {1, 7, 8, 15, 16, 23, 24, 25, 31, 32, 33, 52, 53, 54, 63, 64, 65, std::numeric_limits<D>::max_exponent - 1}) {
+      D p = ldexp(D(1), k);
+      for (D x : {p, nextafter(p, D(0)), nextafter(p, std::numeric_limits<D>::infinity()), D(p - 1), D(p + 1)}) c.push_back(x);
+    }
+    for (D x : c)
+      for (D y : {x, D(-x)}) {
+        bool seen = false;
+        for (D z : v) seen = seen || bits_of(z) == bits_of(y);
+        if (!seen) v.push_back(y);
+      }
+  } else {
+    using UD = std::make_unsigned_t<D>;
+    constexpr int w = sizeof(D) * 8;
+    for (int k = 0; k <= w; k++)
+      for (int dlt = -1; dlt <= 1; dlt++) {
+        UD u = static_cast<UD>((k < w ? static_cast<UD>(static_cast<UD>(1) << k) : static_cast<UD>(0)) + static_cast<UD>(dlt));
+        for (UD x : {u, static_cast<UD>(UD(0) - u)}) {
+          D s = static_cast<D>(x);
+          bool seen = false;
+          for (D y : v) seen = seen || y == s;
+          if (!seen) v.push_back(s);
+        }
+      }
+  }
+  return v;
+}
+template <class D>
+void add_pow2(std::vector<OpVal>& out, int dt) {
+  for (D d : pow2_values<D>()) {
+    if constexpr (std::is_floating_point_v<D>) out.push_back({dt, 0, static_cast<double>(d)});
+    else out.push_back({dt, static_cast<int64_t>(d), 0});
+  }
+}
+std::vector<OpVal> pow2_operands(bool with_fp) {
+  std::vector<OpVal> v;
+  add_pow2<int>(v, DT_INT);
+  add_pow2<unsigned>(v, DT_UNSIGNED);
+  add_pow2<int64_t>(v, DT_INT64);
+  add_pow2<uint64_t>(v, DT_UINT64);
+  add_pow2<uint8_t>(v, DT_UINT8);
+  add_pow2<uint16_t>(v, DT_UINT16);
+  add_pow2<int8_t>(v, DT_INT8);
+  add_pow2<int16_t>(v, DT_INT16);
+  if (with_fp) {
+    add_pow2<float>(v, DT_FLOAT);
+    add_pow2<double>(v, DT_DOUBLE);
+  }
+  return v;
+}
+// every count below the width, as each integer operand type; plus boundary counts carried in wide types
+std::vector<OpVal> every_shift_count(size_t width_bits) {
+  std::vector<OpVal> v;
+  for (int dt = DT_INT; dt <= DT_INT16; dt++)
+    for (unsigned c = 0; c < width_bits; c++) v.push_back({dt, static_cast<int64_t>(c), 0});
+  return v;
+}
+
 // the only per-operand-type instantiation: the operator on wrapper and native with a D-typed operand
 template <class W, class T>
 void exec_typed(Cell<W>& cell, Order o, int op, T v, const OpVal& d, Obs& ob) {
@@ -76,27 +139,28 @@ void exec_typed(Cell<W>& cell, Order o, int op, T v, const OpVal& d, Obs& ob) {
     case DT_INT8: run_binop<W, T, int8_t>(cell, o, op, v, static_cast<int8_t>(d.i), ob); break;
     case DT_INT16: run_binop<W, T, int16_t>(cell, o, op, v, static_cast<int16_t>(d.i), ob); break;
     default:
-      if constexpr (std::is_floating_point_v<T>) {
-        if (d.dt == DT_FLOAT) run_binop<W, T, float>(cell, o, op, v, static_cast<float>(d.f), ob);
-        else run_binop<W, T, double>(cell, o, op, v, d.f, ob);
-      } else __builtin_trap();
+      // integer wrappers take float / double operands only with + - * / (%, &, |, ^, <<, >> are ill-formed natively too)
+      if (std::is_integral_v<T> && op > OP_DIV) __builtin_trap();
+      if (d.dt == DT_FLOAT) run_binop<W, T, float>(cell, o, op, v, static_cast<float>(d.f), ob);
+      else run_binop<W, T, double>(cell, o, op, v, d.f, ob);
       break;
   }
 }
 
 template <class W, class T>
-void drive_optypes(vf::Run& r, const char* wname, Order o, const std::vector<T>& values) {
+void drive_optypes(vf::Run& r, const char* wname, Order o, const std::vector<T>& values, bool pow2 = false) {
   r.note(wname);
   Tally t;
   Cell<W> cell;
   Obs ob;
   uint64_t compared[NDTYPES] = {0};
   constexpr bool fp = std::is_floating_point_v<T>;
-  std::vector<OpVal> operands = all_operands(fp);
-  std::vector<OpVal> counts = fp ? std::vector<OpVal>() : all_shift_counts(sizeof(T) * 8);
+  std::vector<OpVal> operands = pow2 ? pow2_operands(fp) : all_operands(fp);
+  std::vector<OpVal> arith_operands = pow2 ? pow2_operands(true) : all_operands(true);  // + float / double operands, for + - * / on every wrapper
+  std::vector<OpVal> counts = fp ? std::vector<OpVal>() : (pow2 ? every_shift_count(sizeof(T) * 8) : all_shift_counts(sizeof(T) * 8));
   for (int op = OP_ADD; op <= OP_SHR; op++) {
     if (fp && op > OP_DIV) break;
-    const std::vector<OpVal>& ds = (op == OP_SHL || op == OP_SHR) ? counts : operands;
+    const std::vector<OpVal>& ds = (op == OP_SHL || op == OP_SHR) ? counts : (op <= OP_DIV ? arith_operands : operands);
     for (const OpVal& d : ds)
       for (T v : values) {
         if (!r.take()) continue;
@@ -145,3 +209,26 @@ VF_SECTION(optypes, 8, 8, 120) {
   r.bound = "operand-type matrix: 18 integer wrapper types x {+=,-=,*=,/=,%=,&=,|=,^=} x operand types {int, unsigned, int64_t, uint64_t, uint8_t, uint16_t, int8_t, int16_t} x 12-13 boundary operand values per type x 15/22/30 stored values, plus <<=/>>= with counts of each operand type below the width; 6 float/double wrapper types x {+=,-=,*=,/=} x operand types {int, unsigned, int64_t, uint64_t, uint8_t, uint16_t, int8_t, int16_t, float, double} x boundary operand values x 30 stored values (NaNs, infinities, denormals included); native operator applied with the same operand expression type";
 }
 
+
+// Boundary values far from the usual (2^k-1, 2^k, 2^k+1 and negatives) in PAIRS: stored value x operand.
+VF_SECTION(pow2, 16, 16, 120) {
+#define X(W, T, O) drive_optypes<W, T>(r, #W, O, pow2_values<T>(), true);
+  C03_W16(X)
+  C03_W32(X)
+  C03_W64(X)
+  {
+    // stored float values: the power-of-two neighbourhood plus NaNs
+    std::vector<float> fv = pow2_values<float>();
+    for (uint64_t b : {0x7FC00000ull, 0xFFC00001ull, 0x7F800001ull}) fv.push_back(from_bits<float>(b));
+    std::vector<double> dv = pow2_values<double>();
+    for (uint64_t b : {0x7FF8000000000000ull, 0xFFF8000000000001ull, 0x7FF0000000000001ull}) dv.push_back(from_bits<double>(b));
+#undef X
+#define X(W, T, O) drive_optypes<W, T>(r, #W, O, fv, true);
+    C03_WF32(X)
+#undef X
+#define X(W, T, O) drive_optypes<W, T>(r, #W, O, dv, true);
+    C03_WF64(X)
+#undef X
+  }
+  r.bound = "boundary pairs: 24 wrapper types, stored value in {+-(2^k-1), +-2^k, +-(2^k+1) : k = 0..width} (floats: +-2^k and neighbours for k in {1,7,8,15,16,23,24,25,31,32,33,52,53,54,63,64,65,max}, +-0, +-denormal, +-min, +-max, +-inf, 3 NaNs) x operand in the same set of EVERY operand type {int, unsigned, int64_t, uint64_t, uint8_t, uint16_t, int8_t, int16_t} (and float, double for + - * /) x every compound operator; <<=/>>= with every count below the width as each operand type";
+}
